@@ -386,7 +386,7 @@ def r4_player_two(ctx, chk, rule="C03.4"):
     # (b) the clearing store in Solver.prune_states
     f = ctx.func("tad.py::Solver.prune_states")
     sx = SymX(ctx, f, "Solver", inline_depth=2).run()
-    slist = ("attr", ("v", "self"), "state_list")
+    slist = shared.SLIST(ctx)
     stores = []
     for l in sx.loops.values():
         for e in l.effects:
@@ -488,7 +488,7 @@ def _pointed_to_set(sx, coll, slist):
 def r5_dispatch(ctx, chk, rule="C03.5"):
     f = ctx.func("tad.py::Solver.prune_paths")
     sx = SymX(ctx, f, "Solver", inline_depth=0).run()
-    slist = ("attr", ("v", "self"), "state_list")
+    slist = shared.SLIST(ctx)
     loops = [l for l in sx.loops.values() if l.kind == "for"]
     if len(loops) != 1:
         chk.undecided(rule, f.where(), "%d loops in Solver.prune_paths" % len(loops))
